@@ -50,6 +50,11 @@ NullSpine(k) ==   \* the same, closed by a NULL right pointer (k >= 1; 2k nodes)
    r |-> [i \in 1..MaxNodes |-> IF i < k THEN i + 1 ELSE 0],
    isl |-> [i \in 1..MaxNodes |-> i <= k]]
 
+SubtreeSpine(k) ==  \* right-leaning spine closed by an element that is itself a (non-list) tree: node 2k+1 with two leaf children
+  [l |-> [i \in 1..MaxNodes |-> IF i <= k THEN k + i ELSE IF i = 2 * k + 1 THEN 2 * k + 2 ELSE 0],
+   r |-> [i \in 1..MaxNodes |-> IF i < k THEN i + 1 ELSE IF i = k THEN 2 * k + 1 ELSE IF i = 2 * k + 1 THEN 2 * k + 3 ELSE 0],
+   isl |-> [i \in 1..MaxNodes |-> i <= k]]
+
 Init ==
   /\ mode \in Modes
   /\ \/ /\ mode # "list"
@@ -60,6 +65,7 @@ Init ==
         /\ \E k \in 0..((MaxNodes - 1) \div 2) :
              \/ \E s \in {LeftSpine(k), RightSpine(k), NilSpine(k)} : n = 2 * k + 1 /\ left = s.l /\ right = s.r /\ islist = s.isl
              \/ k >= 1 /\ n = 2 * k /\ left = NullSpine(k).l /\ right = NullSpine(k).r /\ islist = NullSpine(k).isl
+             \/ 2 * k + 3 <= MaxNodes /\ n = 2 * k + 3 /\ left = SubtreeSpine(k).l /\ right = SubtreeSpine(k).r /\ islist = SubtreeSpine(k).isl
   /\ root = IF n = 0 THEN 0 ELSE 1
   /\ tag = [i \in 1..MaxNodes |-> 0]
   /\ oleft = left /\ oright = right
@@ -200,7 +206,10 @@ StepList ==
   /\ Finish(ret')
   /\ Frame /\ UNCHANGED <<left, right, tag, itParent, itKind, freed, bad>>
 
-Next == StepIn \/ StepPre \/ StartPost \/ StepPost \/ StartList \/ StepList
+(* bintree_next after the iteration has returned NULL: NULL again, nothing changes *)
+AfterDone == /\ phase = "done" /\ mode # "free" /\ ret' = 0
+             /\ UNCHANGED <<n, root, left, right, tag, islist, oleft, oright, mode, phase, itCurr, itParent, itKind, out, freed, bad>>
+Next == StepIn \/ StepPre \/ StartPost \/ StepPost \/ StartList \/ StepList \/ AfterDone
 Spec == Init /\ [][Next]_vars
 
 -----------------------------------------------------------------------------
